@@ -1,1 +1,3 @@
 import Model.Basic
+import Model.Codec
+import Model.Types
